@@ -12,5 +12,6 @@ INVARIANT KthChunk
 INVARIANT PastEndIsFeedback
 INVARIANT WholeFileLines
 INVARIANT Restored
+INVARIANT WholeFileNoOffset
 CONSTRAINT Export
 CHECK_DEADLOCK FALSE
